@@ -7,6 +7,7 @@
 //! Every family generates an *op line*, then executes the real code by parsing that line, so
 //! a replay goes through exactly the same path as the original run.
 mod fam_access;
+mod fam_admin;
 mod fam_dyn;
 mod fam_fee;
 mod fam_pmod;
@@ -24,6 +25,21 @@ mod ix;
 
 use std::collections::BTreeMap;
 use std::io::Write;
+
+extern "C" {
+    fn dup2(oldfd: i32, newfd: i32) -> i32;
+}
+/// Anchor logs the two keys of a failed `address` / `has_one` constraint with `Pubkey::log`, which prints
+/// to stdout on the host; a generation run writes its results to files, so stdout is dropped
+fn silence_stdout() {
+    use std::os::unix::io::AsRawFd;
+    if let Ok(f) = std::fs::OpenOptions::new().write(true).open("/dev/null") {
+        unsafe {
+            dup2(f.as_raw_fd(), 1);
+        }
+        std::mem::forget(f);
+    }
+}
 
 pub struct Ctx {
     pub stats: BTreeMap<String, u64>,
@@ -75,6 +91,7 @@ pub fn families() -> Vec<Box<dyn Family>> {
     fam_pmod::register(&mut v);
     fam_fee::register(&mut v);
     fam_sdk::register(&mut v);
+    fam_admin::register(&mut v);
     v
 }
 
@@ -102,6 +119,7 @@ fn main() {
             }
         }
         "gen" => {
+            silence_stdout();
             let fam = fams.iter().find(|f| f.name() == args[2]).unwrap_or_else(|| {
                 eprintln!("unknown family {}", args[2]);
                 std::process::exit(2)
